@@ -188,7 +188,7 @@ class SuperLearner:
         if np.any(np.isnan(X)) or np.any(np.isnan(y)):
             raise ValueError("It looks like there is missing values in X or y. SuperLearner does not support missing "
                              "data.")
-        if np.all(np.in1d(y, np.array([0, 1]))) and (self.loss_function == "l2"):
+        if np.all(np.isin(y, np.array([0, 1]))) and (self.loss_function == "l2"):
             # Allows for the algorithm to proceed (but throws warning to the user about the chosen loss function)
             warnings.warn("It looks like your `y` is binary, and the `L2` loss function should be used for "
                           "continuous outcomes", UserWarning)
